@@ -10,11 +10,33 @@ import (
 	"time"
 
 	"github.com/bloxapp/ssv/zz_verif/lib/hx"
+	"github.com/bloxapp/ssv/zz_verif/lib/rkit"
 )
 
 func genC10(run *hx.Run, r *hx.Rng) {
 	offsets := []time.Duration{0, 300 * time.Millisecond, 1500 * time.Millisecond}
 	done := 0
+	// real duty runners, fault-free in-order timely: every message must be ACCEPTED
+	for i := 0; done < run.N/3; i++ {
+		kind := rkit.Kinds[i%len(rkit.Kinds)]
+		n := 4
+		if i%5 == 4 {
+			n = 7
+		}
+		t := RunnerTrace(world(n), kind, uint64(2*(i%9)))
+		c := NewCase(run, t.W, false, "c10/"+t.Name)
+		for k := range t.Msgs {
+			c.Honest = 2
+			c.ValidateSSV(t.Msgs[k].Msg, t.Time(k), Env{Mode: "n"}, "c10:runners:"+kind.Name)
+			done++
+		}
+		c.Honest = 0
+		run.Tag("c10-run/runners-" + kind.Name)
+		run.Seen(fmt.Sprintf("c10|runners|n%d|%s", n, kind.Name))
+		if len(t.Msgs) == 0 {
+			done++
+		}
+	}
 	for i := 0; done < run.N; i++ {
 		n := 4
 		if i%4 == 3 {
